@@ -589,6 +589,19 @@ def run(ctx):
     if only_c:
         ctx.info("R7.6", f"names bound only in the compiled engine (interpreted resolves them through the field-type tree or rejects): {only_c}", cm)
 
+    # ------------------------------------------------------------------ R7.10 the expression text is compiled as given
+    ctx.rule("R7.10", "Selector.__init__ hands the expression to compile() as it was given (only an empty one is replaced): no split/join/replace/strip on the text - "
+                      "whitespace inside string literals is part of the expression")
+    si10 = ctx.anchor_func("flow.record.selector.Selector.__init__")
+    ep10 = func_params(si10)[1]
+    comp10 = [c for c in calls_in(si10) if call_name(c) == "compile"]
+    ctx.floor("R7.10", "compile() in Selector.__init__", len(comp10), 1)
+    textops = [c for c in calls_in(si10) if isinstance(c.func, ast.Attribute) and c.func.attr in ("split", "join", "replace", "strip", "lstrip", "rstrip", "lower", "upper", "splitlines", "translate", "expandtabs", "format", "sub")
+               and any(isinstance(n, ast.Name) and n.id == ep10 for n in ast.walk(c))]
+    ctx.check(not textops, "R7.10", "Selector.__init__:expression-text", f"the expression text is rewritten with `{norm(textops[0])[:60] if textops else ''}` before it is compiled: string literals "
+              "inside it change with it", textops[0] if textops else si10, "compile(expression or 'True', ...)", key="R7.10:Selector.__init__:expression-text-rewritten")
+
+
 
 def is_special_name(name: str) -> bool:
     import operator as _op
